@@ -294,52 +294,68 @@ def exhaust_cases(out):
 
 
 def raising_cases(out):
-    """A condition that raises for one element (a bad record): whoever asks for that element gets the error and
-    gives that side up; the *other* side must still be exactly the elements of its own truth value among those whose
-    condition did not raise.  Outside the Lean model (its conditions have truth values): monitor only."""
+    """A condition that raises for one element (a bad record): whoever asks for that element gets the error - once -,
+    the element is in neither result, and *both* sides can be asked for the following elements afterwards: each is
+    exactly the elements of its own truth value among those whose condition did not raise, in order, whatever the
+    order of consumption.  Outside the Lean model (its conditions have truth values): monitor only."""
     from aiuti.itertools import split
 
     class Bad(Exception):
         pass
+
+    def drain(it, got, errs, limit=None):
+        k = 0
+        while limit is None or k < limit:
+            k += 1
+            try:
+                got.append(next(it))
+            except Bad as e:
+                errs.append(e.args[0])
+            except StopIteration:
+                return True
+        return False
     for n in range(2, 7):
-        for bad in range(0, n - 1):
-            for first in ('T', 'F'):
+        for bad in range(0, n):
+            for order in ('T', 'F', 'alt', 'alt2'):
                 for srckind in ('list', 'gen'):
                     xs = list(range(n))
                     truth = [(x * 7 + n) % 3 != 0 for x in xs]
+                    calls = []
 
-                    def cond(x, bad=bad, truth=truth):
+                    def cond(x, bad=bad, truth=truth, calls=calls):
+                        calls.append(x)
                         if x == bad:
                             raise Bad(x)
                         return truth[x]
                     src = list(xs) if srckind == 'list' else (x for x in xs)
                     t, f = split(src, cond)
-                    a, b = (t, f) if first == 'T' else (f, t)
-                    got_a = []
-                    try:
-                        for v in a:
-                            got_a.append(v)
-                    except Bad:
-                        pass
-                    a = None
-                    got_b = []
-                    try:
-                        for v in b:
-                            got_b.append(v)
-                    except Bad:
-                        pass
-                    want_b = [x for x in xs if x != bad and truth[x] == (first != 'T')]
+                    got = {True: [], False: []}
+                    errs = []
+                    if order in ('T', 'F'):
+                        a, b = (t, f) if order == 'T' else (f, t)
+                        drain(a, got[order == 'T'], errs)
+                        drain(b, got[order != 'T'], errs)
+                    else:
+                        step = 1 if order == 'alt' else 2
+                        done_t = done_f = False
+                        for _ in range(4 * n + 8):
+                            if not done_t:
+                                done_t = drain(t, got[True], errs, step)
+                            if not done_f:
+                                done_f = drain(f, got[False], errs, 1)
+                            if done_t and done_f:
+                                break
                     out.evaluations += 1
-                    case = {'raising': True, 'n': n, 'bad': bad, 'first': first, 'srckind': srckind}
-                    wrong = [x for x in got_b if x == bad or truth[x] != (first != 'T')]
-                    missing = [x for x in want_b if x not in got_b and x > bad]
-                    if wrong or missing:
+                    case = {'raising': True, 'n': n, 'bad': bad, 'order': order, 'srckind': srckind}
+                    want = {side: [x for x in xs if x != bad and truth[x] == side] for side in (True, False)}
+                    if got != want or errs != [bad] or calls != xs:
                         out.concrete.append({
                             'case': case,
-                            'what': f'the condition raises for element {bad}; the {"true" if first == "T" else "false"} side '
-                                    f'saw the error and was given up; the other side then yielded {got_b}: {wrong} do not '
-                                    f'belong to it and {missing} (whose condition was evaluated without error) are missing',
-                            'observed': {'first_side': got_a, 'other_side': got_b},
+                            'what': f'the condition raises for element {bad} of {xs} (truth values {truth}); consumption '
+                                    f'order {order}, the consumer catches the error and goes on: true side {got[True]} '
+                                    f'(expected {want[True]}), false side {got[False]} (expected {want[False]}), errors '
+                                    f'received for {errs} (expected once, for {bad}), condition called for {calls}',
+                            'observed': {'true_side': got[True], 'false_side': got[False], 'errors': errs},
                             'signature': {'kind': 'desync-after-raising-condition'}})
     out.count('raising-condition cases', 1)
 
